@@ -87,6 +87,19 @@ func (vc *VC) execInstr(fr *Frame, instr ssa.Instruction, st *State) {
 	case *ssa.BinOp:
 		a := vc.value(fr, x.X)
 		b := vc.value(fr, x.Y)
+		if x.Op == token.QUO && len(a.L) == 1 {
+			if parts, ok := vc.durParts[a.L[0]]; ok {
+				if c, ok := x.Y.(*ssa.Const); ok && c.Value != nil && c.Value.ExactString() == "1000000000" {
+					// (ds*1e9 + dns) / 1e9 with |dns| < 1e9, truncated toward zero
+					ds, dns := parts[0], parts[1]
+					z := bvLit(64, 0)
+					r := ite(and(app("bvslt", ds, z), app("bvsgt", dns, z)), app("bvadd", ds, bvLit(64, 1)),
+						ite(and(app("bvsgt", ds, z), app("bvslt", dns, z)), app("bvsub", ds, bvLit(64, 1)), ds))
+					vc.setVal(fr, x, Val{T: x.Type(), L: []string{r}})
+					return
+				}
+			}
+		}
 		if (x.Op == token.QUO || x.Op == token.REM) && isInteger(a.T) {
 			vc.oblige(st, "div0", "", not(eq(b.L[0], bvLit(widthOf(b.T), 0))), x.Pos(), vc.safetyProps)
 		}
@@ -350,6 +363,13 @@ func (vc *VC) assumeWellFormedAt(st *State, v Val, bound string) {
 			vc.assume(st.cond, and(app("bvsle", bvLit(64, 0), v.L[k]), app("bvslt", v.L[k], bvLit(64, 1<<40))))
 		case lkIfData:
 			vc.assume(st.cond, app("bvult", v.L[k], bound))
+		case lkOpaque:
+			if strings.HasSuffix(l.Path, "#rv.mt") {
+				vc.assume(st.cond, app("bvule", v.L[k], bvLit(64, 0xFFFF)))
+			}
+			if strings.HasSuffix(l.Path, "#t.ns") {
+				vc.assume(st.cond, and(app("bvsle", bvLit(64, 0), v.L[k]), app("bvslt", v.L[k], bvLit(64, 1000000000))))
+			}
 		}
 	}
 }
